@@ -367,6 +367,7 @@ class Lark(Serialize, Generic[_Return_T]):
                         "cache_grammar" if self.options.cache_grammar else "cache", username, cache_sha256, *sys.version_info[:2])
 
                 old_options = self.options
+                old_source_path = self.source_path
                 try:
                     with FS.open(cache_fn, 'rb') as f:
                         logger.debug('Loading grammar from cache: %s', cache_fn)
@@ -386,8 +387,10 @@ class Lark(Serialize, Generic[_Return_T]):
                     logger.exception("Failed to load Lark from cache: %r. We will try to carry on.", cache_fn)
 
                     # In theory, the Lark instance might have been messed up by the call to `_load`.
-                    # In practice the only relevant thing that might have been overwritten should be `options`
+                    # In practice the only relevant things that might have been overwritten should be `options`
+                    # and `source_path` (which relative imports are resolved against)
                     self.options = old_options
+                    self.source_path = old_source_path
 
 
             # Parse the grammar file and compose the grammars
